@@ -1224,7 +1224,7 @@ def site_prepare_deferred(fns):
 
 # ============================================================================ C11
 def c11(fns, tier, env):
-    out = [kernel_ttl_expiry(fns), kernel_ttl_expiry_sites(fns), site_resolve_expiry(fns), site_retire_expired(fns), site_update_ttl(fns), site_sweeper(fns), site_recovery_expired_winners(fns), scan_iteration(fns)]
+    out = [kernel_ttl_expiry(fns), kernel_ttl_expiry_sites(fns), site_resolve_expiry(fns), site_retire_expired(fns), site_update_ttl(fns), site_sweeper(fns), site_sweeper_sampling(fns), site_recovery_expired_winners(fns), scan_iteration(fns)]
     return finalize(out, env)
 
 
@@ -4080,6 +4080,60 @@ def site_sweeper(fns):
                      "the ordered-index slot is removed while the entry guard is still held (before the hash entry is removed): a key re-created right after the removal keeps its slot")
     ob.must_hold(reached >= 1, "the removal site was reached")
     return ob.result(it, witness=[("sampled generation", "c13_sweeper_identity"), ("under the guard", "c13_sweeper_identity"), ("ordered-index slot", "c11_sweeper_vs_recreation"), ("", "c11_expiry_model")])
+
+
+def site_sweeper_sampling(fns):
+    f = mir.find(fns, "sample_ttl_entries::{closure#0}", None)
+    ob = Ob("site_ttl_sweeper_sampling_step", "the sweeper's reservoir sampling, one call of the scan closure with ARBITRARY captured state: a record without expiry (ttl_expiry == 0) "
+            "is never sampled, counted or stored; a record with expiry is appended while fewer than sample_size candidates are held – as (this key, this record) – and otherwise "
+            "replaces candidate `index` only when the drawn index is below sample_size, which is then provably inside the vector (no out-of-bounds panic in the background thread); "
+            "the number of candidates never exceeds sample_size", "one closure call; the random draw is an arbitrary value", f)
+    it = Interp(f, loop_bound=1, pure=PURE, slices=True, max_paths=2000)
+    key = z3.Const("key", U)
+    rec = z3.Const("record", U)
+
+    def init(it_, st):
+        st["env"]["_2"] = key
+        st["env"]["_3"] = rec
+    pushed = replaced = skipped = 0
+    for p in it.run(init):
+        ob.paths += 1
+        if p.status != "return":
+            continue
+        loads = [e for e in events(p, "Atomic::load") if z3.is_bv(e.ret) and e.ret.size() == 64]
+        if not ob.must_hold(len(loads) == 1 and contains(loads[0].args[0], rec), "the expiry of THIS record is read"):
+            continue
+        exp = loads[0].ret
+        push = events(p, "Vec::push")
+        im = [e for e in p.events if e.kind == "call" and "IndexMut<usize>>::index_mut" in e.callee]
+        lens = events(p, "Vec::len")
+        writes = [e for e in p.events if e.kind == "write"]
+        if not push and not im:
+            skipped += 1
+            isz, _ = it.entails(p.pc, exp == 0)
+            if isz:
+                ob.must_hold(not writes and not lens, "a record without expiry changes nothing (not even the seen counter)")
+            continue
+        ob.need(it, p.pc, exp != 0, "only a record with an expiry is sampled")
+        if not ob.must_hold(len(lens) == 1, "the candidate count is consulted"):
+            continue
+        n = lens[0].ret
+        # sample_size: the value the count is compared with
+        if push:
+            pushed += 1
+            t = push[0].args[1]
+            ob.must_hold(isinstance(t, mir.Tup) and len(t.fields) == 2 and z3.is_expr(t.fields[1]) and z3.eq(it.as_u(t.fields[1]), rec) and
+                         (z3.eq(it.as_u(t.fields[0]), key) or contains(t.fields[0], key) or any(e.kind == "call" and e.callee.endswith("Clone>::clone") and z3.eq(it.as_u(e.args[0]), key) and z3.eq(it.as_u(e.ret), it.as_u(t.fields[0])) for e in p.events)),
+                         "the appended candidate is (this key, this record)")
+            ob.must_hold(not im, "append and replace are exclusive")
+        if im:
+            replaced += 1
+            idx = im[0].args[1]
+            ob.need(it, im[0].pc, z3.ULT(idx, n), "the replaced index is inside the candidate vector (no panic): index < sample_size <= len")
+            rr = [e for e in p.events if e.kind == "call" and e.callee.endswith("::random_range")]
+            ob.must_hold(len(rr) == 1 and z3.eq(idx, rr[0].ret), "the replaced slot is the drawn index")
+    ob.must_hold(pushed >= 1 and replaced >= 1 and skipped >= 1, "append, replace and skip paths were reached (%d/%d/%d)" % (pushed, replaced, skipped))
+    return ob.result(it, witness="c11_expiry_model")
 
 
 # ============================================================================ common tail
